@@ -8,6 +8,7 @@ admission of a command) are observed by wrapping the awaited primitives from
 here -- the repository is not edited.
 """
 
+import asyncio
 import contextlib
 import os
 import re
@@ -71,6 +72,7 @@ class MailDriver:
         self._installed = False
         self._admit = {}  # session-name -> (applied, pos)
         self._cmd_depth = 0
+        self._resyncing = 0   # resyncs (Mailbox.check_new_msgs_and_flags) in progress right now
         self._env_start = None
         self.special = ["Archive", "Deleted Messages", "Drafts", "Junk", "Sent Messages"]
 
@@ -89,7 +91,14 @@ class MailDriver:
         holder = [drv]
 
         async def check_wrapped(self, *a, **k):
-            changed = await orig_check(self, *a, **k)
+            d0 = holder[0]
+            if d0 is not None:
+                d0._resyncing += 1
+            try:
+                changed = await orig_check(self, *a, **k)
+            finally:
+                if d0 is not None:
+                    d0._resyncing -= 1
             d = holder[0]
             if changed:
                 snap = list(self.uids)
@@ -321,6 +330,13 @@ class MailDriver:
             # its tagged line arrives, so that nothing that happens afterwards
             # (a management task poll) can be attributed to it
             res = await w.cmd(sess, text, kind=kind, uid=uid, wait=wait, settle=0)
+            # a management task may be in the middle of a resync of some mailbox (a poll that fired
+            # while this command ran): its half-updated lists are not a state; let it finish (it
+            # records its own Resync event) before this command's event takes the snapshot
+            for _ in range(2000):
+                if self._resyncing <= 0:
+                    break
+                await asyncio.sleep(0.001)
         finally:
             self._cmd_depth -= 1
         adm = self._admit.pop(sess, 0)
